@@ -347,14 +347,14 @@ def rule_print_all(ctx: RuleContext, p: Program, rid: str) -> None:
 
 
 def run(ctx: RuleContext, p: Program) -> None:
-    rule_postlex_cons(ctx, p, 'POSTLEX-CONS')
-    grammar_rules.rule_gram_split(ctx, p, 'GRAM-SPLIT')
-    grammar_rules.rule_gram_reg(ctx, p, 'GRAM-REG')
+    ctx.try_rule(rule_postlex_cons, p, 'POSTLEX-CONS')
+    ctx.try_rule(grammar_rules.rule_gram_split, p, 'GRAM-SPLIT')
+    ctx.try_rule(grammar_rules.rule_gram_reg, p, 'GRAM-REG')
     from ..fieldmodel import build_tree_classes
-    grammar_rules.rule_gram_fields(ctx, p, build_tree_classes(p), 'GRAM-FIELDS')
-    rule_builder_cons(ctx, p, 'BUILDER-CONS')
-    rule_parse_feed(ctx, p, 'PARSE-FEED')
-    rule_print_all(ctx, p, 'PRINT-ALL')
+    ctx.try_rule(grammar_rules.rule_gram_fields, p, build_tree_classes(p), 'GRAM-FIELDS')
+    ctx.try_rule(rule_builder_cons, p, 'BUILDER-CONS')
+    ctx.try_rule(rule_parse_feed, p, 'PARSE-FEED')
+    ctx.try_rule(rule_print_all, p, 'PRINT-ALL')
     ctx.not_decided += ['that lark accepts a given text', 'that the LALR tree\'s leaves are visited in token order', 'CR/LF layouts',
                         'comment attribution effects (C04/C14)', 'spans of sub-models']
     ctx.assumptions += ['lark lexers emit tokens whose values concatenate to the input (contextual lexer, no %ignore left after '
